@@ -108,6 +108,7 @@ def gen_case(rng):
     files = [[] for _ in range(nfiles)]  # per file: list of records (chrom, pos, gt string, ps)
     identical = rng.random() < 0.08
     multi = P == 2 and rng.random() < 0.35  # diploid files with multi-allelic heterozygous genotypes
+    only_snvs = rng.random() < 0.1
     alts = {}
     for c in chroms:
         n = rng.randint(2, 14 if P == 2 else 7)
@@ -118,8 +119,14 @@ def gen_case(rng):
                 if multi and rng.random() < 0.3:
                     # a tri-allelic site: heterozygous 1|2 or 0|2
                     t = rng.choice([(1, 2), (2, 1), (0, 2), (2, 0)])
+                    al = ["C", "G"]
+                    if rng.random() < 0.25 and not only_snvs:
+                        # an STR-like site with many ALT alleles: allele indices of two digits (10..15)
+                        k = rng.randint(10, 15)
+                        al = ["A" + "CA" * j for j in range(1, k + 1)]
+                        t = rng.choice([(1, k), (k, 1), (0, k), (k, k - 1), (10, 2)])
                     truth.append(t)
-                    alts[(c, pos[len(truth) - 1])] = ["C", "G"]
+                    alts[(c, pos[len(truth) - 1])] = al
                 else:
                     a = rng.randint(0, 1)
                     truth.append((a, 1 - a))
@@ -198,7 +205,7 @@ def gen_case(rng):
                 else:
                     recs.append((c, pos[i], "|".join(str(x) for x in al), b))
             files[f] += recs
-    return {"ploidy": P, "files": files, "chroms": chroms, "only_snvs": rng.random() < 0.1, "alts": {"%s:%d" % k: v for k, v in alts.items()}}
+    return {"ploidy": P, "files": files, "chroms": chroms, "only_snvs": only_snvs, "alts": {"%s:%d" % k: v for k, v in alts.items()}}
 
 
 def write_file(records, path, sample="sampleX", alts=None):
